@@ -10,7 +10,7 @@
    is what the correspondence stage compares bit for bit with CPython. *)
 From Coq Require Import List ZArith Bool QArith Qcanon.
 From Coq Require Import Reals.
-From RxVerif Require Import Math.Exact Math.ExactProofs Math.FloatModel Math.C12Corr Math.SumErrorProofs Math.SumRunningProofs Math.MeanErrorProofs Math.MinMaxFloatProofs Math.FloatOpsProofs Math.VarianceFloatProofs Math.VarianceNonnegProofs Math.WelfordReal Math.WelfordErrorProofs Math.StddevErrorProofs Math.PySumErrorProofs Math.FormalVarianceErrorProofs Math.MixedItemsProofs Math.MixedFormalProofs.
+From RxVerif Require Import Math.Exact Math.ExactProofs Math.FloatModel Math.C12Corr Math.SumErrorProofs Math.SumRunningProofs Math.MeanErrorProofs Math.MinMaxFloatProofs Math.FloatOpsProofs Math.VarianceFloatProofs Math.VarianceNonnegProofs Math.WelfordReal Math.WelfordErrorProofs Math.StddevErrorProofs Math.PySumErrorProofs Math.FormalVarianceErrorProofs Math.MixedItemsProofs Math.MixedFormalProofs Math.MixedFormalErrorProofs.
 Import ListNotations.
 Open Scope Qc_scope.
 
@@ -499,6 +499,62 @@ Proof.
 Qed.
 Print Assumptions C12_mixed_formal_reduction_refuted.
 
+(* ... and the direct bound on lists that really mix ints and floats: builtin sum adds the leading ints exactly, the first
+   float and every later int with one plain rounding (ki of them), every later float compensated (kf of them):
+   |sum_hat - S| <= u|S| + (1+u)(((1+u)^n - 1) u kf (1+u)^n T + u ki (1+u)^n T), T = sum|x|; the second pass is the float
+   analysis with that larger mean error (fvar_bound_em) *)
+Theorem C12_mixed_formal_first_pass_error_bound : forall (l : list num),
+  int_prefix_ok 0 l -> Forall item_ok l -> msum_fin l = true ->
+  (Rabs (FR (to_f (npysum l)) - sumR (map nval l)) <= msum_bound l)%R.
+Proof. exact mixed_pysum_error. Qed.
+Print Assumptions C12_mixed_formal_first_pass_error_bound.
+Theorem C12_mixed_formal_variance_error_bound : forall (h : hints) (l : list num) (lo hi Rr : R),
+  l <> [] -> int_prefix_ok 0 l -> Forall item_ok l -> Forall (fun n => (lo <= nval n <= hi)%R) l -> (hi - lo <= Rr)%R ->
+  (Z.of_nat (length l) < 2 ^ 53)%Z -> mfvar_fin h l = true ->
+  exists f, fvariance_run (FA h) true l = [NF f] /\ ffin f /\
+    (Rabs (FR f - popvarR (map nval l)) <= fvar_bound_em Rr (mmean_bound l) (map nval l))%R.
+Proof. exact mixed_fvariance_reduce_error. Qed.
+Print Assumptions C12_mixed_formal_variance_error_bound.
+Theorem C12_mixed_formal_variance_error_bound_streaming : forall (h : hints) (l : list num) (lo hi Rr : R),
+  int_prefix_ok 0 l -> Forall item_ok l -> Forall (fun n => (lo <= nval n <= hi)%R) l -> (hi - lo <= Rr)%R ->
+  (Z.of_nat (length l) < 2 ^ 53)%Z ->
+  Forall (fun k => mfvar_fin h (firstn k l) = true) (seq 1 (length l)) ->
+  Forall2 (fun (v : num) (k : nat) =>
+             exists f, v = NF f /\ ffin f /\
+               (Rabs (FR f - popvarR (map nval (firstn k l)))
+                <= fvar_bound_em Rr (mmean_bound (firstn k l)) (map nval (firstn k l)))%R)
+          (fvariance_run (FA h) false l) (seq 1 (length l)).
+Proof. exact mixed_fvariance_stream_error. Qed.
+Print Assumptions C12_mixed_formal_variance_error_bound_streaming.
+Theorem C12_mixed_formal_stddev_error_bound : forall (h : hints) (l : list num) (lo hi Rr : R),
+  l <> [] -> int_prefix_ok 0 l -> Forall item_ok l -> Forall (fun n => (lo <= nval n <= hi)%R) l -> (hi - lo <= Rr)%R ->
+  (Z.of_nat (length l) < 2 ^ 53)%Z -> mfstd_fin h l = true ->
+  exists g, fstddev_run (FA h) true l = [NF g] /\ ffin g /\ (0 <= FR g)%R /\
+    (Rabs (FR g - rsqrt (popvarR (map nval l)))
+     <= rsqrt (fvar_bound_em Rr (mmean_bound l) (map nval l)) * (1 + u53) + u53 * rsqrt (popvarR (map nval l)))%R.
+Proof. exact mixed_fstddev_reduce_error. Qed.
+Print Assumptions C12_mixed_formal_stddev_error_bound.
+Theorem C12_mixed_formal_stddev_error_bound_streaming : forall (h : hints) (l : list num) (lo hi Rr : R),
+  int_prefix_ok 0 l -> Forall item_ok l -> Forall (fun n => (lo <= nval n <= hi)%R) l -> (hi - lo <= Rr)%R ->
+  (Z.of_nat (length l) < 2 ^ 53)%Z ->
+  Forall (fun k => mfstd_fin h (firstn k l) = true) (seq 1 (length l)) ->
+  Forall2 (fun (v : num) (k : nat) =>
+             exists g, v = NF g /\ ffin g /\ (0 <= FR g)%R /\
+               (Rabs (FR g - rsqrt (popvarR (map nval (firstn k l))))
+                <= rsqrt (fvar_bound_em Rr (mmean_bound (firstn k l)) (map nval (firstn k l))) * (1 + u53)
+                   + u53 * rsqrt (popvarR (map nval (firstn k l))))%R)
+          (fstddev_run (FA h) false l) (seq 1 (length l)).
+Proof. exact mixed_fstddev_stream_error. Qed.
+Print Assumptions C12_mixed_formal_stddev_error_bound_streaming.
+(* the hypotheses are satisfiable: the refutation witness with the int after the floats, and an interleaved list *)
+Example C12_mixed_formal_hyps_example :
+  (int_prefix_ok 0 witness_after /\ Forall item_ok witness_after /\ mfstd_fin [] witness_after = true)
+  /\ (int_prefix_ok 0 mixed_example /\ Forall item_ok mixed_example /\ mfstd_fin [] mixed_example = true).
+Proof.
+  exact (conj (conj (proj1 witness_after_hyps) (conj (proj1 (proj2 witness_after_hyps)) (proj1 (proj2 (proj2 witness_after_hyps)))))
+              (conj (proj1 mixed_example_hyps) (conj (proj1 (proj2 mixed_example_hyps)) (proj1 (proj2 (proj2 mixed_example_hyps)))))).
+Qed.
+
 Theorem C12_float_unit_roundoff : u53 = (/ 2 ^ 53)%R.
 Proof. exact u53_value. Qed.
 Print Assumptions C12_float_unit_roundoff.
@@ -515,11 +571,12 @@ Print Assumptions C12_float_unit_roundoff.
    (C12_float_builtin_sum_error_bound and the C12_float_formal theorems).
    Int items mixed with floats reduce bit for bit to the float runs for sum, mean, min, max, variance and stddev (the
    C12_mixed_items theorems).  The two-pass formal.variance / formal.stddev on all-int lists reduce the same way
-   (C12_mixed_formal_ints, with the error bounds transferred).  NOT PROVED: an error bound for the two-pass formal.variance on
-   lists that really mix ints and floats (CPython's builtin sum treats an int item after the first float differently from a
-   float item, so the reduction to the float run is false there: C12_mixed_formal_reduction_refuted, two witnesses evaluated
-   in the model and replayed on the code; only the first pass can differ: C12_mixed_formal_second_pass); there the binary64
-   half is tied bit-exactly to the code and its error is measured against exact rationals by the oracle.  The bounds are a-priori bounds in terms of
+   (C12_mixed_formal_ints, with the error bounds transferred).  On lists that really mix ints and floats the reduction to the float run is false (CPython's builtin sum treats an int item
+   after the first float differently from a float item: C12_mixed_formal_reduction_refuted, two witnesses evaluated in the
+   model and replayed on the code), so that case has its own direct bound (the C12_mixed_formal error_bound theorems: the
+   uncompensated int additions each cost one rounding).  With that every aggregate has its binary64 bound on float, int and
+   mixed items, under the stated magnitude and finiteness side conditions (ints below 2^53 in magnitude, leading int partial
+   sums too, no overflow).  The bounds are a-priori bounds in terms of
    u, n, the range and the magnitude of the data (the conditioning), not the sharpest known constants. *)
 Theorem C12_partial : forall (sq : Qc -> Qc) (xs : list Qc),
   sum_run (QA sq) true xs = [qsum xs]
